@@ -113,6 +113,10 @@ def check_schema(run, decls, r, tag):
             if len(m["signals"]) != len(lay):
                 run.violation("message %s has %d signals, the layout has %d leaves" % (m["name"], len(m["signals"]), len(lay)), case_m)
                 return
+            try:
+                declared_units = RL.leaf_units(sch, d["type"])
+            except Exception:
+                declared_units = {}
             mux_names = {v.extended_data.get("mux_signal") for v in lay if v.extended_data.get("mux_signal") is not None}
             leaves = []
             for v in lay:
@@ -140,6 +144,8 @@ def check_schema(run, decls, r, tag):
                     problems.append("value type %d (expected %d: 0 int, 1 f32, 2 f64)" % (sg["float"], want_float))
                 if (sg["unit"] or None) != (v.unit or None) or (csg.unit or None) != (v.unit or None):
                     problems.append("unit %r (expected %r)" % (sg["unit"], v.unit))
+                elif v.name in declared_units and (declared_units[v.name] or None) != (sg["unit"] or None):
+                    problems.append("unit %r (the schema declares %r)" % (sg["unit"], declared_units[v.name]))
                 if sg["scale"] != 1 or sg["offset"] != 0:
                     problems.append("scale/offset %s/%s" % (sg["scale"], sg["offset"]))
                 mc = v.extended_data.get("mux_count")
